@@ -161,6 +161,18 @@ func genMember(t *rapid.T) memberCase {
 
 func checkMember(c memberCase) evid.Outcome {
 	a, n := toAddr(c.Addr), toNetID(c.NetID)
+	// results handed out earlier do not change when the functions are used on other values
+	held, heldNwk := n.ID(), a.NwkID()
+	wantHeld, wantNwk := append([]byte{}, held...), append([]byte{}, heldNwk...)
+	other := toNetID(c.NetID ^ 0x155555)
+	_ = other.ID()
+	tmp := toAddr(^c.Addr)
+	tmp.SetAddrPrefix(other)
+	_ = tmp.IsNetID(other)
+	_ = tmp.NwkID()
+	if !bytes.Equal(held, wantHeld) || !bytes.Equal(heldNwk, wantNwk) {
+		return evid.Fail("NetID %06x: the ID() / NwkID() results obtained earlier (%x / %x) changed to %x / %x after the functions were used on another NetID / DevAddr (shared buffer)", c.NetID, wantHeld, wantNwk, held, heldNwk)
+	}
 	got, want := a.IsNetID(n), refIsNetID(c.Addr, c.NetID)
 	if got != want {
 		return evid.Fail("IsNetID(addr %08x, NetID %06x)=%v, rule says %v (%s)", c.Addr, c.NetID, got, want, c.How)
@@ -282,6 +294,12 @@ func checkRepr(c reprCase) evid.Outcome {
 			return &o
 		}
 		return nil
+	}
+	// the decoders only read their input
+	tin, bin, sin := []byte(text), reverse(c.Bytes), append([]byte{}, c.Bytes...)
+	_, _, _ = unText(tin), unBin(bin), scan(sin)
+	if string(tin) != text || !bytes.Equal(bin, reverse(c.Bytes)) || !bytes.Equal(sin, c.Bytes) {
+		return evid.Fail("%s: a decoder modified its input: text %q -> %q, binary %x -> %x, scan %x -> %x", c.Type, text, tin, reverse(c.Bytes), bin, []byte(c.Bytes), sin)
 	}
 	// text
 	err := unText([]byte(text))
